@@ -81,6 +81,16 @@ def features(text: str) -> Set[str]:
         for c in ast.iter_child_nodes(node):
             walk(c, bound)
     walk(tree, set())
+    # First() of a sequence whose elements are projected / filtered sequences: X.Select(lambda j: <seq>.Select|Where(...)).First()
+    for n in ast.walk(tree):
+        if isinstance(n, ast.Call) and isinstance(n.func, ast.Attribute) and n.func.attr == "First":
+            cur = n.func.value
+            while isinstance(cur, ast.Call) and isinstance(cur.func, ast.Attribute) and cur.func.attr == "Where":
+                cur = cur.func.value
+            if isinstance(cur, ast.Call) and isinstance(cur.func, ast.Attribute) and cur.func.attr == "Select" and cur.args and isinstance(cur.args[0], ast.Lambda):
+                b = cur.args[0].body
+                if isinstance(b, ast.Call) and isinstance(b.func, ast.Attribute) and b.func.attr in ("Select", "Where", "SelectMany"):
+                    feats.add("first-of-projected-sequences")
     # rows per object whose column is itself a sequence
     top = tree.body
     if isinstance(top, ast.Call) and isinstance(top.func, ast.Attribute) and top.func.attr == "Select" and top.args and isinstance(top.args[0], ast.Lambda):
